@@ -84,6 +84,7 @@ class Registry(object):
         self.by_key = {}        # function key -> Contract used at call sites
         self.lemmas = {}
         self.bounded = {}
+        self.shape_checks = {}
 
     def add(self, c):
         if c.label in self.contracts:
